@@ -238,6 +238,28 @@ CHECKS = {
 NA_DEFAULT = "check under construction in this build round (see DESIGN.md section 8)"
 
 
+# clauses added after the third round of independent mutations (DESIGN.md section 10.3); appended to the level text
+ROUND3 = {
+    "C01": "Also: ratio statistics take no energy total from the tail-including hs() (same band, same quadrature); degenerate-case guards compare scale-free quantities; label-level code never lets a bare ndarray taken out of a labelled array meet labelled data positionally.",
+    "C03": "Also: the sort key is the library Hs with default options; the wind-sea fraction is computed from the partition that is returned.",
+    "C04": "Also: every direction row lists its neighbours in the same displacement order (the immersion depends on slot order); the wrapper forwards nk, nth, ihmax unchanged and the native routines never reassign their scalar parameters.",
+    "C05": "Also: no bare ndarray taken out of a labelled array (.values / .data / np.asarray) is combined with labelled data or indexed by a positional axis in label-level code.",
+    "C06": "Also (shared with C05): no positional axis / Ellipsis index / positional broadcast on the bare data of a labelled array.",
+    "C07": "Also (shared with C04): every kernel hands the native routine a C-contiguous float32 copy of its block.",
+    "C08": "Also: the accessor wrappers hand the caller's targets on unchanged; de-duplication keeps one representative per direction; np.interp in the numpy kernel fills zero on both sides.",
+    "C09": "Also: the cutoff of ptm5 and the limits compared by is_overlap are the caller's values, never redefined before use.",
+    "C11": "Also: no writer has a write effect on the dataset it serialises (shared effect analysis); to_swan fixes the complete axis order before positional reads; coordinate values captured before a re-ordering along that coordinate are not used afterwards.",
+    "C12": "Also: NDBC r1/alpha1 and r2/alpha2 pairing through the helper's argument binding; no rounding of converted coordinates; the dispatcher's name set contains dimensions as well as variables.",
+    "C13": "Also: per-record lists drawn from one sequence of parsed records are re-ordered together or not at all; the NDBC date-column offset follows the detected header variant.",
+    "C14": "Also: the longitude fold is unconditional with operands reduced modulo 360; the station list is filled in query order and never rebuilt; the tolerance widens the bounds after the convention handling.",
+    "C15": "Also (shared with C01): the accessor's dm / dspr divide moments taken over one band.",
+    "C16": "Also: the circularity test is a function of direction differences only (independent of the grid's origin); the accessor hands smooth_spec the array itself.",
+    "C17": "Also: effects through **kwargs kept in instance fields and through __call__ of package classes are followed.",
+    "C18": "Also: every lookup of the auto-vivifying attribute table with a non-constant key is dominated by a membership test (one obligation per site).",
+    "C20": "Also: the label map handed back to Python is written on every exit of partition() or zero-filled at allocation; a replacement index window [p, p+1] needs a dominating 'p is not last' test; core-dimension chunking (shared with C07).",
+}
+
+
 def main():
     props = [json.loads(l) for l in open(os.path.join(HERE, "properties.jsonl"))]
     checks, na = [], []
@@ -252,7 +274,7 @@ def main():
                 "evidence_file": f"/verif/evidence/{pid}.json",
                 "replay_cmd_template": f"./vcheck {pid} --explain 0  # replay file: {{path}}",
                 "engine": "vsa",
-                "level_claimed": {"category": c[1], "text": c[2], "design_ref": c[5]},
+                "level_claimed": {"category": c[1], "text": (c[2] + " " + ROUND3.get(pid, "")).strip(), "design_ref": c[5]},
                 "level_note": COMMON_TRUST + c[3],
                 "technique": c[4],
             })
